@@ -26,6 +26,7 @@ ASSUMPTIONS = [
     "eager JAX on CPU with the converter inactive is the reference; elements where JAX itself is non-finite are masked",
     "f64 JAX evaluation bounds the error JAX's f32 evaluation carries (K=16)",
     "ORT CPU, one thread, graph optimizations disabled",
+    "periodic functions (sin, cos) are compared for |x| <= 1e5: beyond ~1e7 ORT's vectorised kernels have no accurate range reduction",
     "catalog entries flagged skip_numeric_validation by their authors are exported and loaded but not compared",
 ]
 
@@ -210,8 +211,14 @@ def _work_lattice(sh, acc):
     lat = lattice_f()
     lat = np.concatenate([lat, np.array([-0.0], np.float32)])
     for name in sh["unary"]:
-        prog = {"inputs": [[progen.F, [int(lat.size)]]], "stmts": [{"o": "v1", "op": "un_f", "a": ["x0"], "kw": {"f": name}}], "outputs": ["v1"]}
-        _lattice_case(acc, prog, [lat], f"un_f:{name}")
+        pts = lat
+        if name in ("sin", "cos"):
+            # ORT's vectorised Sin/Cos kernels lose all accuracy beyond ~1e7 (cos(16777216) = -0.94 instead of -0.33): that is the
+            # runtime's range reduction, not the exported graph (a single Cos node), so periodic functions are compared for |x| <= 1e5
+            pts = lat[np.abs(lat) <= 1e5]
+            acc.tally("lattice_domain", f"un_f:{name}: |x| <= 1e5 ({int(lat.size - pts.size)} points dropped)")
+        prog = {"inputs": [[progen.F, [int(pts.size)]]], "stmts": [{"o": "v1", "op": "un_f", "a": ["x0"], "kw": {"f": name}}], "outputs": ["v1"]}
+        _lattice_case(acc, prog, [pts], f"un_f:{name}")
     if sh["binary"]:
         a, b = np.meshgrid(lat, lat)
         a, b = a.reshape(-1).astype(np.float32), b.reshape(-1).astype(np.float32)
